@@ -39,13 +39,16 @@ def numba_cache_dir():
     th = tree_hash()
     d = os.path.join(base, th)
     os.makedirs(d, exist_ok=True)
-    # bound disk use: keep the 4 most recently used tree caches
+    # bound disk use: keep the 12 most recently used tree caches; never remove one used within the last 3 hours
+    # (another check may be running against that tree right now)
     try:
         os.utime(d, None)
-        others = sorted((os.path.join(base, x) for x in os.listdir(base)), key=os.path.getmtime, reverse=True)
         import shutil
-        for o in others[4:]:
-            shutil.rmtree(o, ignore_errors=True)
+        import time
+        others = sorted((os.path.join(base, x) for x in os.listdir(base)), key=os.path.getmtime, reverse=True)
+        for o in others[12:]:
+            if time.time() - os.path.getmtime(o) > 3 * 3600:
+                shutil.rmtree(o, ignore_errors=True)
     except OSError:
         pass
     os.environ['VERIF_NUMBA_DIR'] = d
